@@ -17,6 +17,7 @@ edits of the generated tables that the side condition refutes exactly such effec
 FilterAnalyzer with `ub=None` remains `_partial` + `_counterexample` (benign by value, see there).
 -/
 import Nitime.Lemmas.OneTime
+import Nitime.Lemmas.Sessions
 import Nitime.Generated.Analyzers
 
 namespace Nitime.C13.Props
@@ -301,5 +302,131 @@ example :
     (read spec numSemR g_GrangerAnalyzer_causality_xy s0).1.cache g_GrangerAnalyzer__model = none ∧
     (read spec numSemR g_GrangerAnalyzer_frequencies
       (run spec numSemR [g_GrangerAnalyzer_causality_xy] s0)).2 ≠ none := by decide
+
+
+/-! ### PROCESS-level sessions: several live objects of base / derived / sibling / user classes
+(Model/Sessions.lean, Lemmas/Sessions.lean).  The only state outside the objects that the one-time
+machinery can have is (a) a class-level table of one-time names used by `reset`, (b) process-level
+objects that constructors bind slots to.  Both are GENERATED from the current source. -/
+
+open Nitime.OneTime.Sessions
+
+/-- GENERATED side condition: `ResetMixin.reset` obtains the names it deletes in a safe way (today:
+    it walks the class dictionaries of the MRO on every call; a table cached on the class and found
+    with `getattr(cls, …)` — seed C13-9 — makes this `decide` fail at translation time) -/
+theorem reset_name_source_safe : resetNameSource.safe = true := by decide
+
+/-- GENERATED side condition: no constructor binds a slot that is later written into to a module-level /
+    class-level object or to a mutable default argument (`self.method = default_method if method is None
+    else …` — seed C13-7 — makes this fail) -/
+theorem ctor_state_is_per_object : ∀ sp ∈ allSpecs, sp.processBound = [] := by decide
+
+/-- INSTANCES ARE INDEPENDENT (today's `reset`): after ANY session — objects of any classes of any
+    hierarchy constructed, read, reset, re-targeted in any order — every object is in the state that its
+    own operations alone produce.  Hypothesis `hn`: no object is built with a slot bound to a
+    process-level cell (what `ctor_state_is_per_object` says of `method=None`; a caller who hands ONE
+    dict to two constructors that keep it is outside — see `shared_dict_interferes`). -/
+theorem instances_independent (h : Hier) (sem : Sem V I) (ops : List (SOp V I)) (hn : NewUnbound ops)
+    (o : Nat) : (srun resetNameSource h sem ops Proc.empty).obj o = objRun h sem o ops none :=
+  session_proj reset_name_source_safe h sem ops Proc.empty (tablesOK_empty h)
+    (by intro o ob hob; cases hob) hn o
+
+/-- ORDER INDEPENDENCE IN A PROCESS.  Object `o` is constructed somewhere in the session and then only
+    read (reads `l`, in any order, repeated or not); anything may happen to any other object before, in
+    between and after.  Then a further read of `g` on `o` returns what a freshly built object returns
+    when `g` is read first. -/
+theorem session_order_independent (h : Hier) (sem : Sem V I) (spec : Spec) (present dv : List Nat)
+    (cp : Nat → Option V) (x : I) (hN : NoInterference spec present)
+    (hp : ∀ p ∈ present, ((construct sem dv cp x).params p).isSome = true)
+    (ops : List (SOp V I)) (hn : NewUnbound ops) (o c : Nat) (l : List Nat) (g : Nat)
+    (hproj : ops.filter (touches o) =
+      SOp.new o { cls := c, spec := spec, st := construct sem dv cp x } ::
+        l.map (fun g => SOp.on o (Op.read g))) :
+    ∃ ob, (srun resetNameSource h sem ops Proc.empty).obj o = some ob ∧
+      (read ob.spec sem g ob.st).2 = (read spec sem g (construct sem dv cp x)).2 := by
+  refine ⟨_, session_reads_state reset_name_source_safe h sem ops hn o _ l hproj, ?_⟩
+  exact order_independent spec present sem dv cp x hN hp l g
+
+/-- the class-level tables: for a safe source every table left on a class by any session is the exact
+    name list of that class (so `reset` clears exactly the fired attributes of the object's class and
+    its ancestors — `namesFor_safe`) -/
+theorem reset_clears_exactly_own_and_inherited (src : NameSource) (hs : src.safe = true) (h : Hier)
+    (t : Tables) (ht : TablesOK h t) (c : Nat) (s : St V I) (k : Nat) :
+    (reset (namesFor src h t c).1 s).cache k = (if k ∈ h.allNames c then none else s.cache k) := by
+  rw [(namesFor_safe hs h t ht c).1]
+  simp [reset]
+
+/-! #### counterexamples: a table found through the parent lookup; a shared process-level dict -/
+
+/-- class 0 = a base class owning the one-time name 0; class 1 derives from it and owns name 1 -/
+def cexHier : Hier := { mro := fun c => if c = 1 then [1, 0] else [c], own := fun c => [c] }
+def cexSpec : Spec := [{ usesInput := true }, { usesInput := true }]
+def cexObj (c x : Nat) : Obj Nat Nat :=
+  { cls := c, spec := cexSpec, st := construct numSem [] (fun p => some p) x }
+
+/-- a base-class instance is reset first; then a derived instance is read and re-targeted -/
+def ancestorFirst : List (SOp Nat Nat) :=
+  [.new 0 (cexObj 0 3), .on 0 .reset, .new 1 (cexObj 1 3), .on 1 (.read 1),
+   .on 1 (.retarget [] [] (fun _ => none) 500)]
+
+/-- the same with the derived instance reset once before the base instance -/
+def derivedFirst : List (SOp Nat Nat) :=
+  [.new 1 (cexObj 1 3), .on 1 .reset, .new 0 (cexObj 0 3), .on 0 .reset, .on 1 (.read 1),
+   .on 1 (.retarget [] [] (fun _ => none) 500)]
+
+def readAfter (src : NameSource) (ops : List (SOp Nat Nat)) : Option (Option Nat) :=
+  ((srun src cexHier numSem ops Proc.empty).obj 1).map fun ob => (read ob.spec numSem 1 ob.st).2
+
+def freshRead : Option (Option Nat) :=
+  some (read cexSpec numSem 1 (construct numSem [] (fun p => some p) 500)).2
+
+/-- COUNTEREXAMPLE (seed C13-9 / C14-8): with a class-level table found through the parent lookup the
+    derived object keeps its stale result after `set_input` in the ancestor-first session … -/
+theorem inherited_table_ancestor_first_stale : readAfter .inheritedTable ancestorFirst ≠ freshRead := by
+  decide
+
+/-- … but not when the derived class happened to be reset first (why a single-class test never sees it),
+    and never with a table looked up in the class's own dictionary or recomputed per call -/
+theorem inherited_table_derived_first_fine : readAfter .inheritedTable derivedFirst = freshRead := by decide
+theorem own_table_ancestor_first_fine : readAfter .ownTable ancestorFirst = freshRead := by decide
+theorem walk_per_call_ancestor_first_fine : readAfter .walkPerCall ancestorFirst = freshRead := by decide
+theorem inherited_table_not_safe : NameSource.inheritedTable.safe = false ∧ NameSource.unknown.safe = false :=
+  ⟨rfl, rfl⟩
+
+/-- one getter that reads slot 0 and fills it when missing (`method['Fs'] = method.get('Fs', rate)`) -/
+def cellSpec : Spec := [{ reads := [0], dwrites := [0], usesInput := true }]
+def cellObj (x : Nat) (b : List (Nat × Nat)) : Obj Nat Nat :=
+  { cls := 0, spec := cellSpec, st := construct numSem [] (fun _ => none) x, bound := b }
+
+def twoReads (b : List (Nat × Nat)) : Option (Option Nat) :=
+  ((srun .walkPerCall cexHier numSem
+      [.new 0 (cellObj 3 b), .new 1 (cellObj 4 b), .on 0 (.read 0), .on 1 (.read 0)] Proc.empty).obj 1).map
+    fun ob => ob.st.cache 0
+
+/-- COUNTEREXAMPLE (seed C13-7; the recorded finding for ONE user dict kept by two constructors): two
+    analyzers whose slot lives in the same process-level dict — the second one's result is computed from
+    what the first one wrote; with per-object dicts it is the fresh value -/
+theorem shared_dict_interferes :
+    twoReads [(0, 0)] ≠ some ((read cellSpec numSem 0 (construct numSem [] (fun _ => none) 4)).1.cache 0) ∧
+    twoReads [] = some ((read cellSpec numSem 0 (construct numSem [] (fun _ => none) 4)).1.cache 0) := by
+  decide
+
+def grObj : Obj Nat Nat :=
+  { cls := 2, spec := spec_GrangerAnalyzer.resolve [], st := construct numSem [] (fun p => some p) 3 }
+
+/-- non-vacuity of `session_order_independent`: a three-object session of a real table -/
+example :
+    ∃ ob, (srun resetNameSource cexHier numSem
+        [.new 7 (cexObj 0 9), .new 0 grObj,
+         .on 7 .reset, .on 0 (.read g_GrangerAnalyzer_order), .new 5 (cexObj 1 4), .on 5 (.read 1),
+         .on 0 (.read g_GrangerAnalyzer_spectral_matrix), .on 5 (.retarget [] [] (fun _ => none) 8)]
+        Proc.empty).obj 0 = some ob ∧
+      (read ob.spec numSem g_GrangerAnalyzer_causality_xy ob.st).2
+        = (read (spec_GrangerAnalyzer.resolve []) numSem g_GrangerAnalyzer_causality_xy
+            (construct numSem [] (fun p => some p) 3)).2 :=
+  session_order_independent cexHier numSem _ (spec_GrangerAnalyzer.present []) [] _ 3
+    (noInterference_of_okAll GrangerAnalyzer_noInterference [] (by decide)) (by decide) _
+    (by intro o ob hm; simp at hm; rcases hm with ⟨_, rfl⟩ | ⟨_, rfl⟩ | ⟨_, rfl⟩ <;> rfl) 0 2
+    [g_GrangerAnalyzer_order, g_GrangerAnalyzer_spectral_matrix] _ (by rfl)
 
 end Nitime.C13.Props
